@@ -62,7 +62,8 @@ struct Builder {
     units: Vec<UnitId>,
     /// per unit: model entry index (1-based) -> id
     ids: Vec<Vec<UnitEntryId>>,
-    files: Vec<Option<write::FileId>>,
+    /// per unit: the files added to its line program, in order ("f": n names the n-th)
+    files: Vec<Vec<write::FileId>>,
 }
 
 fn unbv128(v: &Value) -> u128 {
@@ -202,13 +203,10 @@ impl Builder {
             "CallingConvention" => AttributeValue::CallingConvention(constants::DwCc(n as u8)),
             "Inline" => AttributeValue::Inline(constants::DwInl(n as u8)),
             "Ordering" => AttributeValue::Ordering(constants::DwOrd(n as u8)),
-            "FileIndex" => {
-                if v.is_null() || v.as_array().map(|a| a.is_empty()) == Some(true) {
-                    AttributeValue::FileIndex(None)
-                } else {
-                    AttributeValue::FileIndex(Some(self.files[u].expect("unit has no line program")))
-                }
-            }
+            "FileIndex" => match val["f"].as_u64() {
+                Some(n) => AttributeValue::FileIndex(Some(self.files[u][n as usize - 1])),
+                None => AttributeValue::FileIndex(None),
+            },
             _ => panic!("unknown value kind {}", k),
         }
     }
@@ -375,7 +373,16 @@ fn attr_repr<'a>(unit: read::UnitRef<'_, Slice<'a>>, attr: &read::Attribute<Slic
         A::CallingConvention(c) => json!({"const": "CallingConvention", "v": bv(c.0 as u64, 8)}),
         A::Inline(c) => json!({"const": "Inline", "v": bv(c.0 as u64, 8)}),
         A::Ordering(c) => json!({"const": "Ordering", "v": bv(c.0 as u64, 8)}),
-        A::FileIndex(v) => json!({"file": bv(v, 8)}),
+        A::FileIndex(v) => {
+            // the path the index resolves to in the unit's line program
+            let path = unit.line_program.as_ref().and_then(|p| p.header().file(v)).and_then(|f| {
+                unit.attr_string(f.path_name()).ok().map(|s| bytes_json(s.slice()))
+            });
+            match path {
+                Some(p) => json!({"file": bv(v, 8), "path": p}),
+                None => json!({"file": bv(v, 8)}),
+            }
+        }
         other => json!({"other": format!("{:?}", other)}),
     }
 }
@@ -473,18 +480,21 @@ fn replay(case: &Value) -> Value {
     let mut b = Builder { dwarf: write::Dwarf::new(), units: Vec::new(), ids: Vec::new(), files: Vec::new() };
     for u in case["units"].as_array().expect("units") {
         let enc = encoding_of(u);
-        let mut file = None;
-        let program = if u["lineprog"].as_bool() == Some(true) {
+        // "lineprog": the DWARF version of the unit's line program (absent: none)
+        let mut files = Vec::new();
+        let program = if let Some(pv) = u["lineprog"].as_u64() {
+            let penc = Encoding { version: pv as u16, ..enc };
             let mut p = LineProgram::new(
-                enc,
+                penc,
                 LineEncoding::default(),
                 LineString::String(b"/dir".to_vec()),
                 None,
-                LineString::String(b"file.c".to_vec()),
+                LineString::String(b"primary.c".to_vec()),
                 None,
             );
             let dir = p.default_directory();
-            file = Some(p.add_file(LineString::String(b"other.c".to_vec()), dir, None));
+            files.push(p.add_file(LineString::String(b"first.c".to_vec()), dir, None));
+            files.push(p.add_file(LineString::String(b"second.c".to_vec()), dir, None));
             p
         } else {
             LineProgram::none()
@@ -493,7 +503,7 @@ fn replay(case: &Value) -> Value {
         let root = b.dwarf.units.get(id).root();
         b.units.push(id);
         b.ids.push(vec![root]);
-        b.files.push(file);
+        b.files.push(files);
     }
     for c in case["calls"].as_array().expect("calls") {
         b.call(c);
